@@ -31,7 +31,8 @@ CLAIMED = {
          "naming exactly the missed vertices in ascending order; never out of fuel. No hypothesis on the left graph for these. "
          "If no present left vertex has an edge into a collected one (true of every left tree), every image in the mapping is a "
          "present vertex of the left graph after the call, and the left graph stays so closed (MergePresent.v; the hypothesis "
-         "is necessary: C12_dangling_image_absent). Tie + "
+         "is necessary: C12_dangling_image_absent). The verdict theorems are also proved for the extended merge the driver runs "
+         "(XJoin.v: right operands that are not trees, join(), vacant slots; C12x_*), with the unconditional fuel bound. Tie + "
          "oracle: trees plus isolated vertices / detached sub-trees, roots that are not the graph's root.",
          "Coq proof (DFS invariant of merge_rec, counting argument) + checked model/implementation correspondence", "section 8, C12"),
  "C13": ("Coq theorems (P_C13.v): for every hash-set iteration order, every predicate and every invariant source graph whose "
